@@ -1,6 +1,135 @@
-import ArchSim.Model.Asm
+/-
+C14 — "Printed instruction text re-assembles to the same instruction."
+
+Printer: `Rv.Instr.repr`; parser: `Asm.parseLine`; back end: `Asm.instantiate` / `Asm.buildInstrs`;
+whole pipeline: `Asm.load`. The hypotheses on an instruction object are collected in
+`Rv.Instr.Canon addr i` (Lemmas/C14Main.lean): register numbers below 32, stored immediate in the
+range of its format, unused fields zero, `jal`: `aux` the even absolute target and
+`imm = sextImm 21 (aux - addr)`; CSR forms: `aux ≥ 0`. `canon_of_instantiate` shows that these are
+exactly the objects the assembler builds from numeric operands.
+
+FINDING (second sentence of C14 is false as stated): a branch or jump to `label+0x<odd>` is
+assembled without a parity check, its printed form has an odd numeric operand, and re-assembling that
+is rejected with `ParserOddImmediateException` (`listing_not_reassemblable_odd_offset`; confirmed on
+the Python code with `beq x0, x0, l+0x1`). `listing_fixpoint` is the statement that does hold.
+-/
+import ArchSim.Lemmas.C14Canon
 namespace ArchSim.Props.C14
-open ArchSim.Rv
-/-- `ecall` and `ebreak` print as their bare mnemonic. -/
-theorem repr_ecall : ({ op := .ecall } : Instr).repr = "ecall" := by decide
+open ArchSim ArchSim.PP ArchSim.Rv ArchSim.Asm ArchSim.Lemmas.C14
+
+/-- Numerals: the decimal text the printer produces for an integer `v` (any `v` with at most 4300
+    digits, in particular every 64-bit value) is read back by the immediate pattern as `v`, consuming
+    exactly the numeral, whenever the next character is not a digit, `x` or `b` (or the text ends). -/
+theorem numeral_roundtrip_dec (v : Int) (rest : List Char) (hv : v.natAbs < 10 ^ 4300)
+    (hr : ∀ c ∈ rest.head?, isNum c = false ∧ c ≠ 'x' ∧ c ≠ 'b') :
+    pImm ((intToDec v).toList ++ rest) = .ok v rest :=
+  pImm_decTxt v rest hv hr
+
+/-- Numerals: the lower-case hexadecimal text `0x…` printed for a csr number `n` is read back as `n`
+    when the next character is not a hexadecimal digit. -/
+theorem numeral_roundtrip_hex (n : Nat) (rest : List Char) (hr : ∀ c ∈ rest.head?, isHexNum c = false) :
+    pImm (("0x" ++ hexLower n).toList ++ rest) = .ok (n : Int) rest := by
+  have := pImm_hexTxt n rest hr
+  simpa [hexTxt, hexLower_toList] using this
+
+/-- Registers: `x<n>` is read back as register `n` for each of the 32 register numbers, when the
+    next character is not a digit. -/
+theorem register_roundtrip (n : Nat) (hn : n < 32) (rest : List Char) (hr : ∀ c ∈ rest.head?, isNum c = false) :
+    pReg (("x" ++ toString n).toList ++ rest) = .ok n rest := by
+  have := pReg_regTxt n hn rest hr
+  simpa [regTxt] using this
+
+/-- Main round trip. For every canonical instruction `i` other than `fence`, placed at any address
+    `addr`: the text printed for `i` is tokenized as one label-free entry, and the assembler back end
+    builds from that entry, at the same address and for any label table, exactly the instruction `i`
+    (same operation, registers, immediate and auxiliary field). -/
+theorem repr_roundtrip (i : Instr) (addr : Int) (hc : i.Canon addr) (hf : i.op ≠ .fence) :
+    ∃ tok, parseLine i.repr.toList = some tok ∧ tok.lbl = none ∧
+      ∀ (ls : Labels) (k : Nat) (line : String), buildInstrs ls [(k, line, tok.item)] addr = .ok [i] := by
+  obtain ⟨it, hp, hb⟩ := roundtrip_core i addr hc hf
+  refine ⟨_, hp, rfl, ?_⟩
+  intro ls k line
+  rcases hb with ⟨_, hit, hi⟩ | ⟨_, hit, hi⟩ | ⟨_, _, pi, hit, hi⟩
+  · simp [hit, buildInstrs, Except.map, hi]
+  · simp [hit, buildInstrs, Except.map, hi]
+  · simp [hit, buildInstrs, Except.map, hi ls k line]
+
+/-- The same round trip with the syntax tree made explicit: `ecall`/`ebreak` come back as the bare
+    words (which `buildInstrs` turns into the same objects), every other printed form comes back as
+    a grouped syntax tree `pi` that `instantiate` maps to `i` at address `addr` for any label table. -/
+theorem repr_roundtrip_tree (i : Instr) (addr : Int) (hc : i.Canon addr) (hf : i.op ≠ .fence) :
+    ∃ tok, parseLine i.repr.toList = some tok ∧ tok.lbl = none ∧
+      ((i.op = .ecall ∧ tok.item = .str "ecall" ∧ i = { op := .ecall }) ∨
+       (i.op = .ebreak ∧ tok.item = .str "ebreak" ∧ i = { op := .ebreak, imm := 1 }) ∨
+       (i.op ≠ .ecall ∧ i.op ≠ .ebreak ∧ ∃ pi, tok.item = .grp pi ∧
+          ∀ (ls : Labels) (k : Nat) (line : String), instantiate ls addr k line pi = .ok i)) := by
+  obtain ⟨it, hp, hb⟩ := roundtrip_core i addr hc hf
+  exact ⟨_, hp, rfl, hb⟩
+
+/-- The canonical instructions are what the assembler builds: every instruction object
+    `instantiate` produces from a numeric-operand syntax tree of the grammar (`NumericForm`: mnemonic
+    of the alternative, registers below 32, csr number not negative) is canonical at its address —
+    out-of-range immediates are wrapped by the constructors into the canonical range. -/
+theorem canon_of_instantiate (ls : Labels) (addr : Int) (k : Nat) (line : String) (pi : PInstr) (i : Instr)
+    (hg : NumericForm pi) (h : instantiate ls addr k line pi = .ok i) : i.Canon addr :=
+  instantiate_canon ls addr k line pi i hg h
+
+/-- Listing fixpoint. For a program of at most 4096 canonical non-`fence` instructions, the k-th at
+    address 4k, loading the text made of their printed forms joined by newlines succeeds and stores
+    exactly the same instruction list (hence prints the same listing again). -/
+theorem listing_fixpoint (s : St) (prog : List Instr) (hlen : prog.length ≤ 4096)
+    (hc : ∀ k (hk : k < prog.length), prog[k].Canon (4 * k) ∧ prog[k].op ≠ .fence) :
+    (load s (String.intercalate "\n" (prog.map Instr.repr))).err = none ∧
+    (load s (String.intercalate "\n" (prog.map Instr.repr))).st.imem.prog = prog := by
+  apply load_listing s prog hlen
+  · apply canonFrom_of_forall
+    intro k hk
+    simpa using hc k hk
+  · intro i hi
+    obtain ⟨k, hk, rfl⟩ := List.getElem_of_mem hi
+    exact lineOk_repr _ _ (hc k hk).1
+
+/-- FINDING: the listing of a loaded program need not re-assemble. The object the assembler builds
+    for `beq x0, x0, l+0x1` (label `l` at address 4, instruction at address 0) prints as
+    `beq x0, x0, 5`; that text is tokenized as a numeric branch, which the back end rejects with
+    `ParserOddImmediateException` at the same address, for every label table. -/
+theorem listing_not_reassemblable_odd_offset :
+    ∃ (ls : Labels) (pi : PInstr) (i : Instr),
+      instantiate ls 0 1 "beq x0, x0, l+0x1" pi = .ok i ∧ i.op ≠ .fence ∧
+      ∃ tok, parseLine i.repr.toList = some tok ∧
+        ∀ (ls' : Labels) (k : Nat) (line : String),
+          buildInstrs ls' [(k, line, tok.item)] 0 = .error (.parser "ParserOddImmediateException" k line) :=
+  ⟨[("l", 4)], .btypeLabel "beq" 0 0 "l" 1, oddBranch, oddBranch_built, by decide, _, oddBranch_parse,
+    fun ls' k line => oddBranch_rebuild ls' k line⟩
+
+/-! ### non-vacuity -/
+
+/-- `sw x3, 8(x2)` at address 12 is canonical. -/
+example : ({ op := .sw, rs1 := 2, rs2 := 3, imm := 8 } : Instr).Canon 12 := by
+  simp [Instr.Canon, Op.ty]
+
+/-- `jal x1, 24` at address 8 (displacement 16) is canonical. -/
+example : ({ op := .jal, rd := 1, imm := 16, aux := 8 + 16 } : Instr).Canon 8 :=
+  canon_jal_of_range 8 1 16 (by decide) (by decide) (by decide) (by decide) (by decide)
+    (small_natAbs _ (by decide) (by decide))
+
+/-- `csrrwi x1, 0x300, 5` is canonical. -/
+example : ({ op := .csrrwi, rd := 1, imm := 5, aux := 768 } : Instr).Canon 0 := by
+  simp [Instr.Canon, Op.ty]
+
+/-- A three-instruction program satisfying the hypotheses of `listing_fixpoint`. -/
+example :
+    let prog : List Instr := [{ op := .addi, rd := 1, rs1 := 0, imm := -5 }, { op := .ecall },
+      { op := .beq, rs1 := 1, rs2 := 2, imm := -8 }]
+    prog.length ≤ 4096 ∧ ∀ k (hk : k < prog.length), prog[k].Canon (4 * k) ∧ prog[k].op ≠ .fence := by
+  intro prog
+  refine ⟨by decide, ?_⟩
+  intro k hk
+  have : k = 0 ∨ k = 1 ∨ k = 2 := by simp [prog] at hk; omega
+  rcases this with rfl | rfl | rfl <;> simp [prog, Instr.Canon, Op.ty]
+
+/-- A numeric-operand syntax tree of the grammar (hypothesis of `canon_of_instantiate`). -/
+example : NumericForm (.rri "addi" 1 2 5000) := by
+  simp [NumericForm, normalIMn]
+
 end ArchSim.Props.C14
